@@ -781,6 +781,11 @@ func (f *Frame) unop(x *ssa.UnOp, reach string, st *State) {
 		f.guardCheck(x.X, "read of", x.Pos(), reach, st)
 		hint := x.Name()
 		f.vals[x] = f.loadVal(st, addr, x.Type(), hint)
+		if fa, ok := x.X.(*ssa.FieldAddr); ok {
+			if nt := namedStructOf(fa.X.Type()); nt != nil {
+				f.initOnlyFact(st, f.val(fa.X), nt, fa.Field, addr, f.vals[x], x.Type())
+			}
+		}
 	case token.NOT:
 		f.define(x, Not(f.val(x.X)))
 	case token.SUB:
